@@ -91,11 +91,27 @@ class RspHandler:
         if pkt[0] != "$" or pkt[-3] != "#":
             raise ValueError(f"bad packet {pkt}")
         crc = sum(ord(c) for c in pkt[1:-3]) % 256
+        for c in pkt[-2:]:
+            # int() would also accept a sign or white space here
+            if not ("0" <= c <= "9" or "a" <= c <= "f" or "A" <= c <= "F"):
+                raise ValueError(f"bad checksum field in {pkt}")
         crc2 = int(pkt[-2:], 16)
         if crc != crc2:
             raise ValueError(f"Checksum {crc} != {crc2}")
-        pkt = pkt[1:-3]
-        return pkt
+        # Restore escaped characters: '}' followed by (char xor 0x20)
+        data = ""
+        escaped = False
+        for c in pkt[1:-3]:
+            if escaped:
+                data += chr(ord(c) ^ 0x20)
+                escaped = False
+            elif c == "}":
+                escaped = True
+            else:
+                data += c
+        if escaped:
+            raise ValueError(f"incomplete escape sequence in {pkt}")
+        return data
 
 
 def decoder():
